@@ -802,7 +802,7 @@ func c05SearchOrderAgreesWithSort(c *Ctx) {
 			ok := pred != nil
 			if ok {
 				for _, in := range instrsWhere(pred, isReturn) {
-					bo, isB := in.(*ssa.Return).Results[0].(*ssa.BinOp)
+					bo, isB := unspill(in.(*ssa.Return), 0).(*ssa.BinOp)
 					if !isB || bo.Op != token.GEQ || !isAddr(bo.X) {
 						ok = false
 					}
@@ -826,7 +826,7 @@ func c05SearchOrderAgreesWithSort(c *Ctx) {
 	}
 	ok := true
 	for _, in := range instrsWhere(lessOf, isReturn) {
-		bo, isB := in.(*ssa.Return).Results[0].(*ssa.BinOp)
+		bo, isB := unspill(in.(*ssa.Return), 0).(*ssa.BinOp)
 		if !isB || bo.Op != token.LSS || !isAddr(bo.X) || !isAddr(bo.Y) {
 			ok = false
 		}
